@@ -7,6 +7,13 @@ TRUST = ('rustc MIR construction + type checker (nightly 1.97), the mirfacts dri
          '(lint/extern_models.py), dependency crates not analysed; see DESIGN.md 2.1')
 
 CLAIMS = {
+ 'C16': dict(
+    text='Static, all widths >= 1 x all heights x strengths 1..12 (the documented preconditions, taken as entry contracts): the C01 engine applied to '
+         'deblock::deblock - 169 obligations: every Assert / panicking call in the 15 bodies is discharged by the interval reading (split_at_mut chains via '
+         'symbolic multiples of width, chunk lengths, slice-length contracts, i16 kernel arithmetic under sample/strength ranges) or sits in the reviewed-safe '
+         'table tied to DB1 (horizontal loop guard `edge_y + 2 <= len/width` and split chain; found D11: `height - 2` underflow, fixed) and DB2 (vertical pass '
+         'under width >= 10, 8-sample chunk octets, columns 4..7); all 9 loops classified; QUANT_TO_STRENGTH folded from const MIR equals Table J.2 for all 31 quantizers.',
+    technique='abstract interpretation over MIR with checked contracts + structural mechanism rules; const-table folding', ref='6/C16'),
  'C01': dict(
     text='Static, all byte strings x both option bits x all histories (by induction over one call with field contracts): inventory of every MIR Assert '
          'terminator (bounds, +-*<<>> overflow with overflow checks on, division/remainder by zero) and every panicking external call reachable from the 7 '
